@@ -15,9 +15,13 @@ import (
 // per policy the quantity it orders by: pool position (first), in-flight rank (least_conn), hashed start slot
 // (hash policies), the running counter (round_robin).  Random draws are values outside the abstraction: every
 // resolution of a branch on them must satisfy the specification.
-func c05R9(h H) {
+func c05R9(h H) { selectionTables(h, "R9") }
+
+// selectionTables: the policies' decision tables under the given rule id (C05 R9; C14 registers them too — a policy
+// that hands out a backend at its connection cap is how max_conns gets exceeded).
+func selectionTables(h H, rule string) {
 	r := h.r
-	r.Rule("R9", "selection tables: for every pool of 1–5 backends (1–3 for least_conn, random and the key policies; 1–7 and 1–4 in the thorough tier) and every availability mask including backends at their connection cap, evaluated abstractly (E10) — first returns the earliest available backend; hostByHashing returns the first available one in cyclic order from hash(key) mod n; least_conn returns an available backend whose in-flight count is minimal among the available ones (for every outcome of its random tie-break); random returns an available one (for every outcome of its draws); round_robin returns the next available one after its counter and, with all backends available, n consecutive selections return n different backends; each returns nil exactly when no backend is available", 5)
+	r.Rule(rule, "selection tables: for every pool of 1–5 backends (1–3 for least_conn, random and the key policies; 1–7 and 1–4 in the thorough tier) and every availability mask including backends at their connection cap, evaluated abstractly (E10) — first returns the earliest available backend; hostByHashing returns the first available one in cyclic order from hash(key) mod n; least_conn returns an available backend whose in-flight count is minimal among the available ones (for every outcome of its random tie-break); random returns an available one (for every outcome of its draws); round_robin returns the next available one after its counter and, with all backends available, n consecutive selections return n different backends; each returns nil exactly when no backend is available", 5)
 	hostT := func(fn *ssa.Function, param int) types.Type {
 		return underlying(fn.Params[param].Type()).(*types.Slice).Elem().(*types.Pointer).Elem()
 	}
@@ -192,7 +196,7 @@ func c05R9(h H) {
 		}
 		return -1
 	}
-	get := func(name string) *ssa.Function { return h.fn("R9", pxPkg, name) }
+	get := func(name string) *ssa.Function { return h.fn(rule, pxPkg, name) }
 
 	// first
 	if fn := get("(*First).Select"); fn != nil {
@@ -219,7 +223,7 @@ func c05R9(h H) {
 				}
 			}
 		}
-		r.Check(bad == "", "R9", "(*proxy.First).Select/table", fn.Pos(), "first returns the earliest available backend of the pool, nil when none is available", fmt.Sprintf("%d cases evaluated", nrun), bad)
+		r.Check(bad == "", rule, "(*proxy.First).Select/table", fn.Pos(), "first returns the earliest available backend of the pool, nil when none is available", fmt.Sprintf("%d cases evaluated", nrun), bad)
 	}
 	// hostByHashing
 	if fn := get("hostByHashing"); fn != nil {
@@ -243,7 +247,7 @@ func c05R9(h H) {
 				}
 			}
 		}
-		r.Check(bad == "", "R9", "proxy.hostByHashing/table", fn.Pos(), "the hash policies return the first available backend in cyclic order from slot hash(key) mod n — the same backend for the same key while availability is unchanged — and nil when none is available", fmt.Sprintf("%d cases evaluated", nrun), bad)
+		r.Check(bad == "", rule, "proxy.hostByHashing/table", fn.Pos(), "the hash policies return the first available backend in cyclic order from slot hash(key) mod n — the same backend for the same key while availability is unchanged — and nil when none is available", fmt.Sprintf("%d cases evaluated", nrun), bad)
 	}
 	// least_conn
 	if fn := get("(*LeastConn).Select"); fn != nil {
@@ -280,7 +284,7 @@ func c05R9(h H) {
 				}
 			}
 		}
-		r.Check(bad == "", "R9", "(*proxy.LeastConn).Select/table", fn.Pos(), "least_conn returns an available backend whose in-flight count is minimal among the available ones, whatever its random tie-break draws; nil when none is available", fmt.Sprintf("%d evaluations (cases x tie-break outcomes)", nrun), bad)
+		r.Check(bad == "", rule, "(*proxy.LeastConn).Select/table", fn.Pos(), "least_conn returns an available backend whose in-flight count is minimal among the available ones, whatever its random tie-break draws; nil when none is available", fmt.Sprintf("%d evaluations (cases x tie-break outcomes)", nrun), bad)
 	}
 	// random
 	if fn := get("(*Random).Select"); fn != nil {
@@ -307,7 +311,7 @@ func c05R9(h H) {
 				}
 			}
 		}
-		r.Check(bad == "", "R9", "(*proxy.Random).Select/table", fn.Pos(), "random returns an available backend for every outcome of its draws, nil only when none is available", fmt.Sprintf("%d evaluations (cases x draw outcomes)", nrun), bad)
+		r.Check(bad == "", rule, "(*proxy.Random).Select/table", fn.Pos(), "random returns an available backend for every outcome of its draws, nil only when none is available", fmt.Sprintf("%d evaluations (cases x draw outcomes)", nrun), bad)
 	}
 	// round_robin
 	if fn := get("(*RoundRobin).Select"); fn != nil {
@@ -355,7 +359,7 @@ func c05R9(h H) {
 				}
 			}
 		}
-		r.Check(bad == "", "R9", "(*proxy.RoundRobin).Select/table", fn.Pos(), "round_robin returns the next available backend after its counter; with all n backends available, n consecutive selections return n different backends (an even rotation)", fmt.Sprintf("%d evaluations", nrun), bad)
+		r.Check(bad == "", rule, "(*proxy.RoundRobin).Select/table", fn.Pos(), "round_robin returns the next available backend after its counter; with all n backends available, n consecutive selections return n different backends (an even rotation)", fmt.Sprintf("%d evaluations", nrun), bad)
 	}
 	// --- the policies that key by a request attribute, and the upstream's own Select
 	reqT := func(fn *ssa.Function, param int) types.Type { return fn.Params[param].Type().(*types.Pointer).Elem() }
@@ -444,7 +448,7 @@ func c05R9(h H) {
 				}
 			}
 		}
-		r.Check(bad == "", "R9", "(*proxy.IPHash).Select/table", fn.Pos(), "ip_hash sends every connection of one client address (IPv4 or bracketed IPv6, any source port) to the same backend, and keys by that address", fmt.Sprintf("%d evaluations", nrun), bad)
+		r.Check(bad == "", rule, "(*proxy.IPHash).Select/table", fn.Pos(), "ip_hash sends every connection of one client address (IPv4 or bracketed IPv6, any source port) to the same backend, and keys by that address", fmt.Sprintf("%d evaluations", nrun), bad)
 	}
 	if fn := get("(*URIHash).Select"); fn != nil {
 		t := reqT(fn, 2)
@@ -467,7 +471,7 @@ func c05R9(h H) {
 				bad = fmt.Sprintf("%d backends: same URI -> hosts %d,%d; other URI -> host %d %s%s%s", n, g1, g2, g3, u1, u2, u3)
 			}
 		}
-		r.Check(bad == "", "R9", "(*proxy.URIHash).Select/table", fn.Pos(), "uri_hash sends requests for one URI to the same backend whoever sends them, and keys by the URI", fmt.Sprintf("%d evaluations", nrun), bad)
+		r.Check(bad == "", rule, "(*proxy.URIHash).Select/table", fn.Pos(), "uri_hash sends requests for one URI to the same backend whoever sends them, and keys by the URI", fmt.Sprintf("%d evaluations", nrun), bad)
 	}
 	if fn := get("(*Header).Select"); fn != nil {
 		t := reqT(fn, 2)
@@ -491,14 +495,15 @@ func c05R9(h H) {
 				bad = fmt.Sprintf("%d backends: same header value -> hosts %d,%d; other value -> host %d %s%s%s", n, g1, g2, g3, u1, u2, u3)
 			}
 		}
-		r.Check(bad == "", "R9", "(*proxy.Header).Select/table", fn.Pos(), "the header policy sends requests carrying one value of the named header to the same backend, and keys by that value", fmt.Sprintf("%d evaluations", nrun), bad)
-		// no header name configured: the policy returns nil although backends are available (known finding)
-		{
+		r.Check(bad == "", rule, "(*proxy.Header).Select/table", fn.Pos(), "the header policy sends requests carrying one value of the named header to the same backend, and keys by that value", fmt.Sprintf("%d evaluations", nrun), bad)
+		// no header name configured: the policy returns nil although backends are available (known finding of C05;
+		// not a matter of the connection cap, so not registered under C14)
+		if rule == "R9" {
 			c := hostCase{avail: allUp(2)}
 			env, _ := hashEnv(c)
 			res, und := env.run(fn, []aval{polObj(fn, map[string]aval{"Names": anil{}}), mkHosts(hostT(fn, 1), c), mkReq(t, astr("1.1.1.1:1"), astr("/"), nil)})
 			g, ok := hostIdx(res)
-			r.Check(und == "" && ok && g >= 0, "R9", "(*proxy.Header).Select/no-name-configured", fn.Pos(), "with backends available a policy must return one; `policy header` without a header name returns nil", describeAval(res), und)
+			r.Check(und == "" && ok && g >= 0, rule, "(*proxy.Header).Select/no-name-configured", fn.Pos(), "with backends available a policy must return one; `policy header` without a header name returns nil", describeAval(res), und)
 		}
 	}
 	if fn := get("(*staticUpstream).Select"); fn != nil {
@@ -544,7 +549,7 @@ func c05R9(h H) {
 				}
 			}
 		}
-		r.Check(bad == "", "R9", "(*proxy.staticUpstream).Select/table", fn.Pos(), "the upstream returns nil exactly when no backend is available and otherwise what its policy (random when none is configured) selects", fmt.Sprintf("%d evaluations", nrun), bad)
+		r.Check(bad == "", rule, "(*proxy.staticUpstream).Select/table", fn.Pos(), "the upstream returns nil exactly when no backend is available and otherwise what its policy (random when none is configured) selects", fmt.Sprintf("%d evaluations", nrun), bad)
 	}
 	// the pool size the retry logic relies on: the request body is kept for replay when the upstream reports more
 	// than one backend.  That count must be the configured pool, not the currently available part of it — a backend
@@ -573,7 +578,7 @@ func c05R9(h H) {
 				}
 			}
 		}
-		r.Check(bad == "", "R9", "(*proxy.staticUpstream).GetHostCount/table", fn.Pos(), "the number of backends the retry logic sees (it decides whether the body is kept for replay) is the configured pool size whatever the backends' current availability", fmt.Sprintf("%d evaluations", nrun), bad)
+		r.Check(bad == "", rule, "(*proxy.staticUpstream).GetHostCount/table", fn.Pos(), "the number of backends the retry logic sees (it decides whether the body is kept for replay) is the configured pool size whatever the backends' current availability", fmt.Sprintf("%d evaluations", nrun), bad)
 	}
 }
 
